@@ -291,6 +291,31 @@ def run(res, ctx):
                     roc["sd"] = roc["td"] = rows[3]["td"]
                     rows.insert(3, roc)
                 cases.append({"rows": rows, "inits": {}})
+            # crafted boundaries of the listed rejections: a return of capital of EXACTLY the cost base (valid),
+            # one cent more (impossible), a return of capital while nothing is held (0 of 0: valid), a sale of
+            # exactly the holdings / a hair more
+            for _ in range(30 if tier == "quick" else 300):
+                d0 = core.BASE_DAY + rng.randint(10, 300)
+                nsh, px = rng.choice([1, 4, 10, 25]), rng.choice([2, 5, 20])
+                af = rng.choice([None, None, "B"])
+                def _q(day, act, **kw):
+                    x = {"sec": "FOO", "td": d0 + day, "sd": d0 + day, "act": act, "com": None, "cur": None, "rate": None, "af": af}
+                    x.update(kw)
+                    return x
+                kind = rng.choice(["roc-equal", "roc-over", "roc-zero-held", "sell-exact", "sell-over"])
+                rows = [_q(0, "Buy", sh=core.D(nsh), aps=core.D(px))]
+                if kind == "roc-equal":
+                    rows += [_q(10, "RoC", aps=core.D(px)), _q(20, "Sell", sh=core.D(nsh), aps=core.D(px + 1))]
+                elif kind == "roc-over":
+                    rows += [_q(10, "RoC", aps=core.D(px * 100 + 1, 2)), _q(20, "Sell", sh=core.D(1), aps=core.D(px))]
+                elif kind == "roc-zero-held":
+                    rows += [_q(10, "Sell", sh=core.D(nsh), aps=core.D(px + 1)), _q(50, "RoC", aps=core.D(1)),
+                             _q(60, "Buy", sh=core.D(1), aps=core.D(px))]
+                elif kind == "sell-exact":
+                    rows += [_q(10, "Buy", sh=core.D(5, 1), aps=core.D(px)), _q(20, "Sell", sh=core.D(nsh * 10 + 5, 1), aps=core.D(px + 1))]
+                else:
+                    rows += [_q(20, "Sell", sh=core.D(nsh * 10000 + 1, 4), aps=core.D(px + 1))]
+                cases.append({"rows": rows, "inits": {}})
         for _ in range(min(400, n - done)):
             cases.append(gen.gen_case(rng, p_invalid=rng.choice([0.0, 0.05, 0.3]),
                                       p_sfl_spec=rng.choice([0.0, 0.1]), p_roc=0.12, p_split=0.12))
